@@ -169,6 +169,31 @@ Proof.
 Qed.
 Print Assumptions C01_versatiles_block_in_file.
 
+(* versatiles, the whole file: header, metadata, the blocks one after the other (tile data followed by
+   the brotli-compressed tile index), block index last - the writer's layout.  For any lawful codec,
+   any number of blocks on any levels (distinct block coordinates, each a cell of the 256-grid with
+   one slot per coordinate), the reader's byte-level path - header, block index, block lookup by
+   (z, x/256, y/256), coverage test, slot number, tile index, range read - returns the tile that was
+   written for the coordinate (nothing for slots without a tile) *)
+Theorem C01_versatiles_file :
+  forall (brotli : list N -> list N) (unb : list N -> option (list N)), (forall b, unb (brotli b) = Some b) ->
+  forall h0 metaz A z x0 y0 x1 y1 slots B file,
+    hdr_wf h0 ->
+    let bl := A ++ ((z, (x0, y0, x1, y1)), slots) :: B in
+    vt_assemble brotli h0 metaz bl = Ok file ->
+    Forall cell_ok bl -> NoDup (map key bl) ->
+    (N.of_nat (length file) <= u64_max)%N ->
+    Forall fits (lay_blocks brotli (66 + N.of_nat (length metaz)) bl) ->
+    Forall (fun p => (snd p <= u32_max)%N) (w_index (write_block slots)) ->
+    forall x y, (x0 <= x <= x1)%N -> (y0 <= y <= y1)%N ->
+    vt_file_lookup unb file z x y =
+      Ok (match nth_error slots (N.to_nat ((y - y0) * (x1 - x0 + 1) + (x - x0))) with
+          | Some (Some d) => if (N.of_nat (length d) =? 0)%N then None else Some d
+          | _ => None
+          end).
+Proof. exact vt_written_file_lookup. Qed.
+Print Assumptions C01_versatiles_file.
+
 (* PMTiles: the 127-byte header reads back to the fields it was written from (directory, metadata
    and tile-data ranges, counts, clustered flag, compressions, tile type, zoom range, bounds, centre) *)
 From VT Require Import Model.PMHeader Proofs.PMHeaderProofs.
@@ -272,3 +297,18 @@ Example C01_example_pmtiles_file :
   pm_file_lookup unzip 1 file 3 = Ok (Some [21; 22; 23]%N) /\ pm_file_lookup unzip 1 file 9 = Ok (Some [31]%N) /\
   pm_file_lookup unzip 1 file 4 = Ok None.
 Proof. repeat split; vm_compute; reflexivity. Qed.
+
+(* a file of two blocks on two levels; "brotli" = a tag byte *)
+Example C01_example_versatiles_file :
+  let brotli := fun b : list N => (255 :: b)%N in
+  let unb := fun b : list N => match b with (255 :: r)%N => Some r | _ => None end in
+  let h0 := mkH 32 0 0 9 0 0 0 0 0 0 0 0 in
+  let bl := [((0, (0, 0, 0, 0)), [Some [5; 5; 5]]); ((9, (256, 0, 257, 1)), [Some [1]; None; Some [2; 2]; Some [1]])]%N in
+  match vt_assemble brotli h0 [123; 125]%N bl with
+  | Ok file =>
+      vt_file_lookup unb file 0 0 0 = Ok (Some [5; 5; 5]%N) /\ vt_file_lookup unb file 9 256 1 = Ok (Some [2; 2]%N) /\
+      vt_file_lookup unb file 9 257 0 = Ok None /\ vt_file_lookup unb file 9 257 1 = Ok (Some [1]%N) /\
+      vt_file_lookup unb file 9 0 0 = Ok None /\ vt_file_lookup unb file 40 0 0 = Err
+  | _ => False
+  end.
+Proof. vm_compute. repeat split; reflexivity. Qed.
